@@ -2,6 +2,7 @@
 from pyvc.dsl import *  # noqa
 
 try:  # native side only
+    import random  # noqa
     from datetime import timedelta  # noqa
 except ImportError:  # pragma: no cover
     pass
@@ -64,7 +65,7 @@ class WaitFixed:
 class WaitExponential:
     properties = ["C06", "C07"]
     clause_props = {"ensures_first_retry_uses_multiplier": ["C06"], "ensures_bounds": ["C07"],
-                    "safe:OverflowError:float-pow": ["C07"]}
+                    "ensures_growth_formula": ["C06", "C07"], "safe:OverflowError:float-pow": ["C07"]}
     raises = []
 
     def requires(self, attempts, seed):
@@ -78,6 +79,13 @@ class WaitExponential:
             and (result <= self.max or result == max(0.0, self.min))
         )
 
+    def ensures_growth_formula(old, self, attempts, seed, result):
+        # C07 (and the part of C06 that holds): the delay is exactly clamp(multiplier * exp_base**attempts), for
+        # every attempt number - no plateau, no re-basing; a power beyond the float range counts as `max`
+        p = fpow(self.exp_base, attempts)
+        raw = self.multiplier * p if (p <= 1.7976931348623157e308 and p >= -1.7976931348623157e308) else self.max
+        return result == max(max(0.0, self.min), min(raw, self.max))
+
     def ensures_first_retry_uses_multiplier(old, self, attempts, seed, result):
         # C06: the k-th retry (k = attempts >= 1) waits multiplier * exp_base**(k-1), clamped
         return (not (attempts == 1)) or result == max(max(0.0, self.min), min(self.multiplier, self.max))
@@ -86,7 +94,7 @@ class WaitExponential:
 @contract("workflows.retry_policy.wait_incrementing.__call__")
 class WaitIncrementing:
     properties = ["C06", "C07"]
-    clause_props = {"ensures_kth_retry": ["C06"], "ensures_bounds": ["C07"]}
+    clause_props = {"ensures_kth_retry": ["C06"], "ensures_bounds": ["C07"], "ensures_growth_formula": ["C06", "C07"]}
     raises = []
 
     def requires(self, attempts, seed):
@@ -94,6 +102,10 @@ class WaitIncrementing:
 
     def ensures_bounds(old, self, attempts, seed, result):
         return result >= 0 and result <= self.max
+
+    def ensures_growth_formula(old, self, attempts, seed, result):
+        # the delay is exactly clamp(start + increment*attempts) for every attempt number
+        return result == max(0.0, min(self.start + self.increment * attempts, self.max))
 
     def ensures_kth_retry(old, self, attempts, seed, result):
         # C06: the k-th retry waits start + increment*(k-1) (clamped to [0, max])
@@ -111,6 +123,10 @@ class WaitRandom:
     def ensures_bounds(old, self, attempts, seed, result):
         return self.min <= result and result <= self.max
 
+    def ensures_deterministic_for_every_seed(old, self, attempts, seed, result):
+        # C07: with a seed (ANY int, 0 included) the delay is Random(seed).uniform(min, max) and nothing else
+        return seed is None or result == random.Random(seed).uniform(self.min, self.max)
+
 
 @contract("workflows.retry_policy.wait_exponential_jitter.__call__")
 class WaitExponentialJitter:
@@ -122,6 +138,13 @@ class WaitExponentialJitter:
 
     def ensures_bounds(old, self, attempts, seed, result):
         return result >= 0 and result <= self.max
+
+    def ensures_deterministic_for_every_seed(old, self, attempts, seed, result):
+        p = fpow(self.exp_base, attempts)
+        raw = self.initial * p if (p <= 1.7976931348623157e308 and p >= -1.7976931348623157e308) else self.max
+        return seed is None or result == min(
+            min(raw, self.max) + random.Random(seed).uniform(0, self.jitter), self.max
+        )
 
 
 @contract("workflows.retry_policy.wait_random_exponential.__call__")
@@ -135,14 +158,27 @@ class WaitRandomExponential:
     def ensures_bounds(old, self, attempts, seed, result):
         return result >= self.min and result <= self.max
 
+    def ensures_deterministic_for_every_seed(old, self, attempts, seed, result):
+        p = fpow(self.exp_base, attempts)
+        raw = self.multiplier * p if (p <= 1.7976931348623157e308 and p >= -1.7976931348623157e308) else self.max
+        return seed is None or result == random.Random(seed).uniform(
+            self.min, max(max(0.0, self.min), min(raw, self.max))
+        )
+
 
 @contract("workflows.retry_policy.wait_chain.__call__")
 class WaitChain:
-    properties = ["C06"]
+    properties = ["C06", "C07"]
+    clause_props = {"ensures_kth_retry_uses_kth_strategy": ["C06"]}
     raises = []
 
     def requires(self, attempts, seed):
         return attempts >= 0 and len(self.strategies) >= 1
+
+    def ensures_member_sees_the_same_attempt(old, self, attempts, seed, result):
+        # the chain returns what ONE of its members returns for the very same attempt number and seed (no re-basing),
+        # members are consumed in order without skipping beyond the recorded off-by-one, and the last one is reused
+        return result == self.strategies[min(attempts, len(self.strategies) - 1)](attempts, seed=seed)
 
     def ensures_kth_retry_uses_kth_strategy(old, self, attempts, seed, result):
         # C06: retry k (= attempts, counted from 1 by the runtime) uses strategy k, the last one being reused
